@@ -24,7 +24,8 @@ DecChecks(e) ==
   << <<"offset after each op",      Len(o.steps) = Len(exp) /\ \A k \in 1..Len(exp) : o.steps[k][1] = exp[k][1]>>,
      <<"base offset (message start) of sliced decoders", Len(o.steps) = Len(exp) /\ \A k \in 1..Len(exp) : o.steps[k][2] = exp[k][2]>>,
      <<"remaining length",          Len(o.steps) = Len(exp) /\ \A k \in 1..Len(exp) : o.steps[k][3] = exp[k][3]>>,
-     <<"value read",                Len(o.steps) = Len(exp) /\ \A k \in 1..Len(exp) : o.steps[k][4] = exp[k][4]>> >>
+     <<"value read",                Len(o.steps) = Len(exp) /\ \A k \in 1..Len(exp) : o.steps[k][4] = exp[k][4]>>,
+     <<"unread rest of the frame (Bytes)", Len(o.steps) = Len(exp) /\ \A k \in 1..Len(exp) : o.steps[k][5] = exp[k][5]>> >>
 HdrChecks(e) ==
   LET o == e.obs  m == Msg(e.n)  rem == e.n - e.pre IN
   << <<"no panic on short header", ~Has(o, "panic")>>,
